@@ -112,6 +112,83 @@ void h_step(void)
 #endif
 #endif
 
+
+/* ------------------------------------------------------------------ S: concat / swap on chain neighbourhoods
+ * A chain with k nodes is its head, its first node F and last node T (F == T for k == 1, F -> T for
+ * k == 2); for k >= 3 the unknown middle is a sentinel node (F->n = &M) that must stay untouched and
+ * the count is any value >= 3.  The tail pointer is the head sentinel for k == 0, else the last node. */
+#if defined(VF_STEP2) && !defined(VF_NATIVE)
+struct vf_chain { struct cstl_slist l; struct cstl_slist_node F, T, M; int k; size_t count; };
+static void vf_chain_make(struct vf_chain * c, int k, size_t big)
+{
+    c->k = k;
+    c->l.off = 8;
+    c->M.n = &c->M;                 /* poison: a self-link no operation creates */
+    c->F.n = c->T.n = NULL;
+    if (k == 0) { c->l.h.n = NULL; c->l.t = &c->l.h; c->count = 0; }
+    else if (k == 1) { c->l.h.n = &c->F; c->l.t = &c->F; c->count = 1; }
+    else {
+        c->l.h.n = &c->F; c->l.t = &c->T;
+        if (k == 2) { c->F.n = &c->T; c->count = 2; } else { c->F.n = &c->M; c->count = big; }
+    }
+    c->l.count = c->count;
+}
+#define CFIRST(c) ((c)->k == 0 ? NULL : &(c)->F)
+#define CLAST(c)  ((c)->k == 0 ? NULL : ((c)->k == 1 ? &(c)->F : &(c)->T))
+static void vf_chain_inner(struct vf_chain * c)
+{
+    VF_ASSERT(c->M.n == &c->M, "slist step: the unknown middle of a chain is not touched");
+    if (c->k >= 3) { VF_ASSERT(c->F.n == &c->M, "slist step: the inner link of the first node is kept"); }
+    else if (c->k == 2) { VF_ASSERT(c->F.n == &c->T, "slist step: the link between the two nodes is kept"); }
+}
+/* the chain of `c` hangs under head `h`: head link, tail pointer = true last (or the head sentinel), count */
+static void vf_chain_under(struct vf_chain * c, struct cstl_slist * h, size_t count)
+{
+    VF_ASSERT(h->count == count, "slist step: count");
+    VF_ASSERT(h->h.n == CFIRST(c), "slist step: the head links the first node (or nothing)");
+    VF_ASSERT(h->t == (c->k == 0 ? &h->h : CLAST(c)), "slist step: the tail pointer is the last node, or the list's OWN head sentinel when empty");
+    VF_ASSERT(h->t->n == NULL, "slist step: nothing follows the tail");
+}
+void h_step2(void)
+{
+    int kd, ks;
+    for (kd = 0; kd <= 3; kd++) {
+        for (ks = 0; ks <= 3; ks++) {
+            struct vf_chain d, s;
+            size_t bd = nondet_size_t(), bs = nondet_size_t();
+            __CPROVER_assume(bd >= 3 && bs >= 3 && bd <= SIZE_MAX / 2 && bs <= SIZE_MAX / 2);
+            vf_chain_make(&d, kd, bd);
+            vf_chain_make(&s, ks, bs);
+#if VF_STEP2 == 1
+            cstl_slist_concat(&d.l, &s.l);
+            vf_chain_inner(&d); vf_chain_inner(&s);
+            VF_ASSERT(d.l.off == 8 && s.l.off == 8, "concat: offsets kept");
+            if (ks == 0) {
+                vf_chain_under(&d, &d.l, d.count);
+                vf_chain_under(&s, &s.l, 0);
+            } else {
+                VF_ASSERT(d.l.count == d.count + s.count, "concat: the destination has all the elements");
+                VF_ASSERT(s.l.count == 0 && s.l.h.n == NULL && s.l.t == &s.l.h, "concat: the source is left empty and usable");
+                VF_ASSERT(d.l.h.n == (kd == 0 ? CFIRST(&s) : CFIRST(&d)), "concat: the first element is the destination's first (or the source's, if it was empty)");
+                VF_ASSERT(d.l.t == CLAST(&s) && d.l.t->n == NULL, "concat: the tail is the source's last element and ends the chain");
+                if (kd > 0) {
+                    VF_ASSERT(CLAST(&d)->n == CFIRST(&s), "concat: the source's first element follows the destination's last");
+                }
+            }
+#else
+            cstl_slist_swap(&d.l, &s.l);
+            vf_chain_inner(&d); vf_chain_inner(&s);
+            vf_chain_under(&s, &d.l, s.count);
+            vf_chain_under(&d, &s.l, d.count);
+            VF_ASSERT(d.l.off == 8 && s.l.off == 8, "swap: offsets exchanged");
+#endif
+            VF_REACH(kd == 3 && ks == 3, "largest neighbourhood reached");
+        }
+    }
+    VF_END();
+}
+#endif
+
 /* ------------------------------------------------------------------ B: reference-sequence checks */
 static int vf_cmp_key(const void * a, const void * b, void * p)
 {
